@@ -649,3 +649,71 @@ func DecodeBlockRow(b []byte) (BlockRow, error) {
 	r.Status = b[80]
 	return r, nil
 }
+
+// ---------------------------------------------------------------------------
+// legacy (version 0) utxo entry: all unspent outputs of one transaction in one
+// record (format comment of blockchain/upgrade.go: deserializeUtxoEntryV0)
+
+// EncodeUtxoV0 encodes <version><height><header code><unspentness bitmap>
+// [<compressed txout>...]. outs maps output index -> (amount, script); every
+// Out carries the same height / coinbase flag in the legacy format, given
+// separately. padBitmap appends that many zero bytes to the bitmap (a longer
+// than necessary bitmap is still a well-formed record).
+func EncodeUtxoV0(version uint64, height int32, coinbase bool, outs map[uint32]Out, padBitmap int) ([]byte, error) {
+	if len(outs) == 0 || height < 0 {
+		return nil, ErrRange
+	}
+	var idx []uint32
+	for i := range outs {
+		idx = append(idx, i)
+	}
+	for i := 1; i < len(idx); i++ { // insertion sort: ascending output index
+		for j := i; j > 0 && idx[j-1] > idx[j]; j-- {
+			idx[j-1], idx[j] = idx[j], idx[j-1]
+		}
+	}
+	var bitmap []byte
+	for _, i := range idx {
+		if i < 2 {
+			continue
+		}
+		byteNo := int(i-2) / 8
+		for len(bitmap) <= byteNo {
+			bitmap = append(bitmap, 0)
+		}
+		bitmap[byteNo] |= 1 << ((i - 2) % 8)
+	}
+	for k := 0; k < padBitmap; k++ {
+		bitmap = append(bitmap, 0)
+	}
+	_, has0 := outs[0]
+	_, has1 := outs[1]
+	n := uint64(len(bitmap))
+	if !has0 && !has1 {
+		if n == 0 {
+			return nil, ErrRange
+		}
+		n-- // N-1 is encoded: there must be at least one bitmap byte
+	}
+	code := n << 3
+	if coinbase {
+		code |= 1
+	}
+	if has0 {
+		code |= 2
+	}
+	if has1 {
+		code |= 4
+	}
+	b := append(PutVLQ(version), PutVLQ(uint64(height))...)
+	b = append(b, PutVLQ(code)...)
+	b = append(b, bitmap...)
+	for _, i := range idx {
+		txo, err := PutTxOut(uint64(outs[i].Amount), outs[i].PkScript)
+		if err != nil {
+			return nil, err
+		}
+		b = append(b, txo...)
+	}
+	return b, nil
+}
